@@ -6,6 +6,9 @@ type, data cell, borders and dirty flag — whether the call succeeds or fails.
 -/
 import Ajson.Proofs.ReadFrame2
 import Ajson.Props.C12
+import Ajson.Proofs.Fills2
+import Ajson.Proofs.UnpackCanon
+import Ajson.Proofs.CloneSound
 
 namespace Ajson.Props.C13
 open Ajson Ajson.Heap
@@ -42,6 +45,30 @@ theorem C13_string (fmtF : UInt64 → Option Bytes) (h : Heap) (n : Id) :
 theorem C13_comparisons (h : Heap) (a b : Option Id) (o : Ord4) :
     SameButCaches h (h.eq a b).1 ∧ SameButCaches h (h.neq a b).1 ∧ SameButCaches h (h.cmp o a b).1 :=
   ⟨eq_frame h a b, neq_frame h a b, cmp_frame o h a b⟩
+
+/-- **… and the same value**: on ANY heap — edited ones included, no coherence assumption — each of these calls is a `Fills` step
+(Proofs/Fills: it only fills EMPTY value cells, each with what `getValue` reports for that node), and a `Fills` step changes the
+answer of `getValue` for no node, hence the value every node denotes (`absVal`: what `Unpack` answers and `Eq` compares, Props C05,
+C17) is the same before and after — whether the call succeeds or fails -/
+theorem C13_reads_keep_every_value (fmtF : UInt64 → Option Bytes) (fuel : Nat) (h : Heap) (n : Option Id) (m : Id) (a b : Option Id) (o : Ord4) :
+    (Proofs.Fills h (h.getNumeric n).1 ∧ Proofs.Fills h (h.getString n).1 ∧ Proofs.Fills h (h.getBool n).1 ∧
+     Proofs.Fills h (h.getArray n).1 ∧ Proofs.Fills h (h.getObject n).1 ∧ Proofs.Fills h (h.unpack fuel m).1 ∧
+     Proofs.Fills h (h.marshal fmtF fuel m).1 ∧ Proofs.Fills h (h.toStringN fmtF m).1 ∧
+     Proofs.Fills h (h.eq a b).1 ∧ Proofs.Fills h (h.neq a b).1 ∧ Proofs.Fills h (h.cmp o a b).1) ∧
+    (∀ h' : Heap, Proofs.Fills h h' → ∀ (f : Nat) (x : Id),
+      Proofs.absVal f h' x = Proofs.absVal f h x ∧ (h'.getValue x).2 = (h.getValue x).2) :=
+  ⟨⟨Proofs.getNumeric_fills h n, Proofs.getString_fills h n, Proofs.getBool_fills h n, Proofs.getArray_fills h n, Proofs.getObject_fills h n,
+    Proofs.unpack_fills fuel h m, Proofs.marshal_fills fmtF fuel h m, Proofs.toStringN_fills fmtF h m,
+    Proofs.eq_fills h a b, Proofs.neq_fills h a b, Proofs.cmp_fills o h a b⟩,
+   fun _ r f x => ⟨Proofs.absVal_fills r f x, Proofs.getValue_out_fills r x⟩⟩
+
+/-- reads compose: any sequence of them is one `Fills` step -/
+theorem C13_reads_compose {a b c : Heap} (r1 : Proofs.Fills a b) (r2 : Proofs.Fills b c) : Proofs.Fills a c := r1.trans r2
+
+/-- **Clone leaves every record of the tree as it is** — cache cell included: the copy is made of new nodes only (C14) -/
+theorem C13_clone_leaves_every_record {h : Heap} (hs : Proofs.Struct h) (ha : Proofs.Acyc h) (n : Nat) (hn : n < h.size) :
+    (∀ m : Nat, m < h.size → (h.clone n).1.get m = h.get m) ∧ (h.clone n).1.datas = h.datas :=
+  let r := Proofs.clone_ok h n (Proofs.clone_hypothesis hs ha n hn); ⟨r.2.2.1, r.2.2.2.2⟩
 
 /-- `Path()` and the structural accessors do not even take a heap result: they are pure functions of the heap -/
 theorem C13_path_pure (fuel : Nat) (h : Heap) (n : Id) : ∃ p : Bytes, h.pathOf fuel n = p := ⟨_, rfl⟩
